@@ -466,3 +466,5 @@ func (g *scriptGen) steps(n int, wNote, wAct, wRel int, avoidExit bool) {
 		}
 	}
 }
+
+func evdevCode(c uint16) evdev.EvCode { return evdev.EvCode(c) }
